@@ -143,7 +143,7 @@ def py_spec(prog):
             big = max(big, b, end)
         size = round_up(end, al)
         active.discard(nm)
-        done[nm] = (offs, size, al, max(big, size))
+        done[nm] = (offs, size, al, max(big, size), end)
         return done[nm]
 
     return {nm: struct(nm) for nm, _ in prog}
@@ -184,7 +184,16 @@ def direct_oracle(prog, obs):
     if kind == "ODirty":
         return ("rejected-but-laid-out", "compute_layouts rejected the definitions but left field offsets written in the program")
     if kind == "OPrintPanic":
-        return ("print-panics:array-of-struct" if has_array_of_struct(prog) else "print-panics",
+        sig = "print-panics"
+        if has_array_of_struct(prog):
+            sig = "print-panics:array-of-struct"
+        else:
+            try:
+                if any(v[4] + v[2] >= W32 for v in py_spec(prog).values()):
+                    sig = "print-panics:u32-rounding"      # end of last field + alignment reaches 2^32
+            except Exception:
+                pass
+        return (sig,
                 "the structs are laid out, but print_program (the only place that reports size and alignment) panics on them")
     if kind == "OTypeMismatch":
         return ("lowered-field-type-mismatch", "a struct field declared with a struct type was lowered to a different AIR type")
